@@ -76,8 +76,19 @@ impl Config {
 }
 
 enum Front {
-    Lib(Server),
+    Lib(Arc<Server>),
     Http(HttpApp),
+}
+
+/// Harness-side handle to the storage a library `Server` owns, through the server's own
+/// `txn()` accessor (so the server can be given its storage directly, without a wrapper that
+/// would hide overridden trait methods).
+pub struct ViaServer(pub Arc<Server>);
+
+impl Storage for ViaServer {
+    fn txn(&self, client_id: Uuid) -> anyhow::Result<Box<dyn taskchampion_sync_server_core::StorageTxn + '_>> {
+        self.0.txn(client_id).map_err(|e| anyhow::anyhow!("{e}"))
+    }
 }
 
 pub type StorageWrap = Arc<dyn Fn(Arc<dyn Storage>) -> Arc<dyn Storage> + Send + Sync>;
@@ -140,19 +151,37 @@ impl Subject {
     }
 
     fn build_front(&mut self) {
-        let st: Arc<dyn Storage> = match &self.wrap {
-            Some(w) => w(self.storage.clone()),
-            None => self.storage.clone(),
-        };
-        self.front = Some(match self.kind.entry {
-            Entry::Lib => Front::Lib(Server::new(self.config.to_server(), Shared(st))),
-            Entry::Http => {
-                let web = WebServer::new(self.config.to_server(), self.allowlist.clone(), Shared(st));
-                let mut app = HttpApp::new(web);
-                app.tap = self.tap.clone();
-                Front::Http(app)
+        let cfg = self.config.to_server();
+        // Without an instrumentation wrapper the server gets its storage *directly* (for SQLite its
+        // own `SqliteStorage` object on the same directory, the harness keeps another one).
+        self.front = Some(match (&self.wrap, self.kind.backend, self.kind.entry) {
+            (Some(w), _, entry) => {
+                let st = w(self.storage.clone());
+                match entry {
+                    Entry::Lib => Front::Lib(Arc::new(Server::new(cfg, Shared(st)))),
+                    Entry::Http => Front::Http(self.mk_app(WebServer::new(cfg, self.allowlist.clone(), Shared(st)))),
+                }
             }
+            (None, Backend::Sqlite, entry) => {
+                let own = SqliteStorage::new(self.dir.as_ref().unwrap().path()).expect("open sqlite storage");
+                match entry {
+                    Entry::Lib => Front::Lib(Arc::new(Server::new(cfg, own))),
+                    Entry::Http => Front::Http(self.mk_app(WebServer::new(cfg, self.allowlist.clone(), own))),
+                }
+            }
+            (None, Backend::Mem, Entry::Lib) => {
+                let server = Arc::new(Server::new(cfg, InMemoryStorage::new()));
+                self.storage = Arc::new(ViaServer(server.clone()));
+                Front::Lib(server)
+            }
+            (None, Backend::Mem, Entry::Http) => Front::Http(self.mk_app(WebServer::new(cfg, self.allowlist.clone(), Shared(self.storage.clone())))),
         });
+    }
+
+    fn mk_app(&self, web: WebServer) -> HttpApp {
+        let mut app = HttpApp::new(web);
+        app.tap = self.tap.clone();
+        app
     }
 
     pub fn set_tap(&mut self, tap: crate::http::Tap) {
@@ -164,6 +193,7 @@ impl Subject {
 
     /// Re-create the server with a different configuration / allow-list over the same storage.
     pub fn reconfigure(&mut self, config: Config, allowlist: Option<HashSet<Uuid>>) {
+        assert!(!(self.wrap.is_none() && self.kind.backend == Backend::Mem && self.kind.entry == Entry::Lib), "an unwrapped in-memory library subject cannot be rebuilt");
         self.config = config;
         self.allowlist = allowlist;
         self.front = None;
